@@ -1,11 +1,13 @@
 """C17 -- summary counts, run statistics and the JUnit report all tell the same story.
 
 Theorems: Properties/C17.v about Model/Junit.v (RunStats::on_test_finished / on_setup_script_finished,
-ExecutionStatuses::describe, MetadataJunit::write_event, the summary line). Correspondence: real
+ExecutionStatuses::describe, MetadataJunit::write_event, the summary line, the xml_safe / XmlString::new
+text pipeline), linked to Model/Result.v and Model/Dispatcher.v by Proofs/JunitLink.v. Correspondence: real
 nextest runs over the scripted puppet workspace with JUnit enabled; the event tap (hook H1) of each
 run is fed to the Coq model (vm_compute) and the model's report / statistics / summary tokens / exit
 code are diffed against the JUnit file (strict XML parser), the RunFinished statistics, the summary
-line on stderr and the process exit status. Oracle: the property's clauses evaluated in plain Python
+line on stderr, the process exit status and (corr:stored-text) the text of every stored system-out of
+the text-carrying runs. Oracle: the property's clauses evaluated in plain Python
 on what the implementation produced, using the configuration (not the event flags) for the
 stored-output clause and the scenario for the selected set."""
 import copy, json, os, re, shutil, signal, stat, threading, time
@@ -15,7 +17,7 @@ import vlib, e2e
 from vlib import coq_str, coq_list, coq_bool
 
 PROP = "C17"
-IMPORTS = ["Base.Str", "Model.Junit", "Proofs.Junit"]
+IMPORTS = ["Base.Str", "Model.Junit"]
 PRELUDE = """
 Definition enc_kind (k : jkind) : N := match k with KFailure => 0 | KError => 1 end.
 Definition enc_rerun (r : jrerun) : list N := [enc_kind (rr_kind r); rr_attempt r; b2n (rr_stored r)].
@@ -74,7 +76,8 @@ HOSTILE_BYTES = [
     ("beyond-max", "f4 90 80 80 f8 88 80 80 80 41"),
     ("panic-invalid", "74 68 72 65 61 64 20 27 6d 27 20 70 61 6e 69 63 6b 65 64 20 61 74 20 ff 3c 26 0a"),
 ]
-# finding F13: the two BMP non-characters survive XmlString::new
+# former finding F13 (fixed by a19c0df, xml_safe): the two BMP non-characters survive quick-junit's
+# XmlString::new; kept as a regression scenario -- an ill-formed file is a plain violation again
 HOSTILE_KNOWN = [("nonchar-ffff", "￿"), ("nonchar-fffe", "mid￾dle"),
                  ("nonchar-panic", "thread 'main' panicked at a.rs:1:1:\nboom ￿\n")]
 
@@ -138,7 +141,7 @@ def plan_attempts(kind, retries, r):
     return [kind] * total
 
 
-def gen_scenario(r, idx, family="mixed"):
+def gen_scenario(r, idx, family="mixed", force_signal=False):
     retries = r.choice([0, 0, 1, 2])
     ss, sf = r.choice([(True, True), (True, False), (False, True), (False, False)])
     fail_fast = r.random() < 0.3
@@ -186,10 +189,43 @@ def gen_scenario(r, idx, family="mixed"):
             sss, ssf = r.choice([(True, True), (True, False), (False, True), (False, False), (None, None)])
             scripts.append({"id": f"s{j}_{idx}", "kind": sk, "ss": sss, "sf": ssf,
                             "capture": r.random() < 0.5})
-    return finish_scenario(dict(idx=idx, family=family, retries=retries, ss=ss, sf=sf, fail_fast=fail_fast,
-                                tests=tests, bin_tests=bin_tests, overrides=overrides, scripts=scripts,
-                                threads=r.choice([1, 2, 4]),
-                                double_spawn=not (scripts and r.random() < 0.5)))
+    sc = dict(idx=idx, family=family, retries=retries, ss=ss, sf=sf, fail_fast=fail_fast,
+              tests=tests, bin_tests=bin_tests, overrides=overrides, scripts=scripts,
+              threads=r.choice([1, 2, 4]),
+              double_spawn=not (scripts and r.random() < 0.5))
+    if family == "mixed" and (r.random() < SIGNAL_P or force_signal):
+        add_signal(sc, r)
+    return finish_scenario(sc)
+
+
+SIGNAL_P = 0.12
+
+
+def add_signal(sc, r):
+    """a run cancelled by a shutdown signal sent to nextest at a random point: SIGINT or SIGTERM once, or
+    twice (the second one makes nextest kill what is still running). Every attempt gets a reaction to the
+    signal nextest forwards to it: exit 0 (a pass), exit 1, die of the signal, or ignore it (killed after
+    the grace period); some passing attempts are lengthened so that the signal finds them running."""
+    variant = r.choice(["int", "term", "term", "int", "double"])
+    signo = int(signal.SIGINT if variant == "int" else signal.SIGTERM if variant == "term"
+                else r.choice([signal.SIGINT, signal.SIGTERM]))
+    after = r.choice(["RunStarted", "TestStarted", "TestStarted", "TestFinished"])
+    sc["signal_on"] = (after, round(r.uniform(0.0, 0.35), 3), signo)
+    if variant == "double":
+        sc["signal_again"] = (round(r.uniform(0.01, 0.12), 3), int(r.choice([signal.SIGINT, signal.SIGTERM])))
+    sc["signal_variant"] = variant
+    for b in sc["bin_tests"].values():
+        for t in b.values():
+            for beh in t.get("attempts", []):
+                if not beh:
+                    continue
+                react = r.choice(["exit0", "exit0", "exit1", "die", "ignore"])
+                if "on_term" not in beh:
+                    beh["on_term"] = {"exit0": "exit", "exit1": "exit"}.get(react, react)
+                    if react == "exit0":
+                        beh["term_exit"] = 0
+                if beh.get("exit") == 0 and "sleep" not in beh and "child" not in beh:
+                    beh["sleep"] = r.choice([0, 0.2, 0.5, 0.5, 1.0])
 
 
 def toml_str(s):
@@ -235,11 +271,11 @@ def finish_scenario(sc):
 
 
 def fixed_scenarios():
-    """corner cases that are always run, the F13 witness first"""
+    """corner cases that are always run, the regression witness of the repaired F13 first"""
     import random
     r = random.Random(0)
     out = []
-    # F13 witness: outputs containing U+FFFF / U+FFFE, stored
+    # regression of F13 (repaired): outputs containing U+FFFF / U+FFFE, stored
     tests, bt = [], {"alpha::t1": {}}
     for i, (pname, text) in enumerate(HOSTILE_KNOWN):
         name = f"k{i}"
@@ -247,7 +283,7 @@ def fixed_scenarios():
         bt["alpha::t1"][name] = {"attempts": [mk_attempt(name, 1, kind, r, text, quiet=True)]}
         tests.append({"bin": "alpha::t1", "name": name, "kind": kind, "ss": True, "sf": True,
                       "selected": True, "plan": [kind], "payloads": [pname]})
-    out.append(dict(idx=0, family="known-F13", retries=0, ss=True, sf=True, fail_fast=False, tests=tests,
+    out.append(dict(idx=0, family="regression-F13", retries=0, ss=True, sf=True, fail_fast=False, tests=tests,
                     bin_tests=bt, overrides=[], scripts=[], threads=2))
     # every hostile payload once, stored, as a failing and as a passing test, with one retry
     tests, bt = [], {"alpha::t2": {}, "beta::t1": {}}
@@ -364,6 +400,15 @@ def run_one(rig, sc, timeout=90):
                 seen[0] = time.monotonic()
             return seen[0] is not None and time.monotonic() >= seen[0] + delay
         signals = [(sig_trigger, signo)]
+        if sc.get("signal_again"):
+            delay2, signo2 = sc["signal_again"]
+            sent_at = [None]
+
+            def again(ctx):
+                if sent_at[0] is None:
+                    sent_at[0] = time.monotonic()   # first polled right after the first signal was sent
+                return time.monotonic() >= sent_at[0] + delay2
+            signals.append((again, signo2))
     if not sc.get("double_spawn", True):
         # without the launcher an unspawnable test / script is an execution failure (with it: exit 70, FAIL)
         env_extra["NEXTEST_DOUBLE_SPAWN"] = "0"
@@ -378,7 +423,8 @@ def run_one(rig, sc, timeout=90):
     shutil.rmtree(os.path.dirname(jp), ignore_errors=True)
     if sab_dir:
         shutil.rmtree(sab_dir, ignore_errors=True)
-    out = dict(rc=res["rc"], stderr=res["stderr"], tap=res["tap"], junit=junit, timed_out=res["timed_out"])
+    out = dict(rc=res["rc"], stderr=res["stderr"], tap=res["tap"], junit=junit, timed_out=res["timed_out"],
+               sent=[(round(t - res["t0"], 3), sg) for t, sg in res["sent"]], wall=round(res["wall"], 3))
     rig.cleanup(res)
     return out
 
@@ -429,8 +475,10 @@ def parse_junit(data):
                     status, nstatus = ch.tag, nstatus + 1
                 elif ch.tag in RERUN_TAGS:
                     st, mixed, marker = stored_of(ch)
+                    rso = ch.find("system-out")
                     reruns.append(dict(family=RERUN_TAGS[ch.tag][0], kind=RERUN_TAGS[ch.tag][1], stored=st,
-                                       mixed=mixed, marker=marker))
+                                       mixed=mixed, marker=marker,
+                                       out=(rso.text or "") if rso is not None else None))
                 elif ch.tag not in ("system-out", "system-err", "properties", "skipped"):
                     return None, f"unexpected child {ch.tag} of testcase"
                 if ch.tag == "skipped":
@@ -730,56 +778,135 @@ def oracle(sc, o, rep, xml_err):
     return bad
 
 
-def has_known_nonchar(sc):
-    """class predicate of finding F13: some scripted output contains U+FFFE / U+FFFF"""
-    for b in sc["puppet"]["bins"].values():
-        for t in b["tests"].values():
-            for a in t.get("attempts", []):
-                for stream in ("stdout", "stderr"):
-                    spec = a.get(stream) or {}
-                    data = bytes.fromhex(spec["hex"]) if "hex" in spec else spec.get("text", "").encode()
-                    if b"\xef\xbf\xbe" in data or b"\xef\xbf\xbf" in data:
-                        return True
-    return False
+# ------------------------------------------------------------------------------ stored text
+
+ESC = 0x1b
+# characters whose UTF-8 encoding contains the byte 0x9C (it ends a DCS passthrough even inside a
+# character), with a following continuation byte <= 0x9F / > 0x9F, and the C1 controls ST, CSI, DCS, OSC
+TRICKY = [0x9c, 0x9b, 0x90, 0x9d, 0x80, 0x85, 0x201c, 0x1700, 0x1720, 0x1c000, 0x1c820, 0x2712f, 0xdc]
+TEXT_ALPHABET = ([ESC] * 10 + [ord(c) for c in "[[]]PX^_\\01;;:<?! /mqA~hHKJ#(@`{|}"]
+                 + [0x07, 0x18, 0x1a, 0x0a, 0x0a, 0x09, 0x0d, 0x00, 0x7f, 0x1f, 0x19, 0x17]
+                 + TRICKY + [0xfffe, 0xffff, 0xfffd, 0xe9, 0x4e2d, 0x1f600, 0x10ffff, 0xa0, 0x9f])
 
 
-def strip_nonchars(data):
-    return data.replace(b"\xef\xbf\xbe", b"").replace(b"\xef\xbf\xbf", b"")
+# always run: one text per branch of the escape stripper that the random ones may miss
+FIXED_TEXTS = ["a\x1bPq\u1720Az",                  # byte 9C of E1 9C A0 ends the DCS string: orphan A0 -> U+FFFD
+               "a\x1bPq\U0001c820Bz",              # F0 9C A0 A0: two orphans -> U+FFFD U+FFFD
+               "a\x1bP1;2|\u1700\x9fAz",            # E1 9C 80: orphan 80 is executed, nothing written
+               "a\x1b]0;title\x07b\x1b]8;;x\x1b\\c",  # OSC ended by BEL / by ESC \
+               "a\x1b[31",                          # unterminated CSI at the end of the string
+               "a\x1b[3\n1;\t4mb\x1b(\nB",          # LF executed inside CSI / ESC-intermediate, TAB dropped
+               "\x1bX sos \u201c \x9c \n still \x1b\\z",  # SOS/PM/APC: 9C does not end it, LF is not executed
+               "\x1b\x1b\x7f[\x7f1\x7fmX",           # ESC ESC, DEL ignored inside sequences
+               "x\x1b[?25l\uffff\x1b\ufffe[m\ufffey",  # non-characters inside and outside sequences
+               "\x1b[1;2;3;4;5;6;7;8;9;10;11;12;13;14;15;16;17;18;19;20;21;22;23;24;25;26;27;28;29;30;31;32;33mP",
+               "\x1b[<u\x1b[>1;2:3 q\x1b[=c\x1b[0 ?x",  # private markers, intermediates, CsiIgnore
+               "\x1bP$q\x18after CAN \x1bP0?\x1aafter SUB \x1b_apc\x1b^pm"]
 
-
-# ------------------------------------------------------------------------------ character filter
 
 def char_filter_cases(r, thorough):
-    cs = list(range(0, 0x30)) + [0x7e, 0x7f, 0xa0, 0xff, 0x100, 0x7ff, 0x800, 0x2028, 0xd7ff, 0xe000, 0xfdd0,
-                                 0xfeff, 0xfffc, 0xfffd, 0x10000, 0x1fffe, 0x10ffff]
+    cs = list(range(0, 0x30)) + list(range(0x7e, 0xa2)) + [0xff, 0x100, 0x7ff, 0x800, 0x2028, 0xd7ff, 0xe000,
+                                                          0xfdd0, 0xfeff, 0xfffc, 0xfffd, 0xfffe, 0xffff,
+                                                          0x10000, 0x1fffe, 0x1ffff, 0x10fffe, 0x10ffff]
     for _ in range(60 if thorough else 12):
         c = r.randrange(0x20, 0x110000)
         if not (0xd800 <= c <= 0xdfff):
             cs.append(c)
-    # ESC starts an escape sequence (strip_ansi_escapes), C1 controls may be read as 8-bit CSI by the
-    # escape stripper, F13 non-characters: not compared (CR is: it is removed before it reaches the XML)
-    skip = {0x1b, 0xfffe, 0xffff} | set(range(0x80, 0xa0))
-    return sorted({c for c in cs if c not in skip})
+    # Every scalar value is compared. The only code point left out of the PER-CHARACTER comparison is ESC
+    # (0x1b): it is not "a character outside an escape sequence" -- it starts one and swallows what
+    # follows, so the [c:A<c>B] frame does not survive. It is covered, like every other code point, by the
+    # whole-string comparison of the same outputs (check_stored_text) and by the escape-sequence texts.
+    return sorted(set(cs))
 
 
-def char_filter_scenario(chars):
+def gen_text(r):
+    """a short string dense in escape-sequence introducers, terminators, controls and non-characters"""
+    shape = r.random()
+    if shape < 0.25:      # a well-formed sequence followed by a tail
+        intro = r.choice(["[", "]", "P", "X", "^", "_", "(", "#", ""])
+        body = "".join(chr(r.choice(TEXT_ALPHABET)) for _ in range(r.randint(0, 6)))
+        fin = r.choice(["m", "\x07", "\x1b\\", "\x9c", "“", "ᜠ", "\x18", "", "qᜀ", "qᜠ"])
+        tail = "".join(chr(r.choice(TEXT_ALPHABET)) for _ in range(r.randint(0, 8)))
+        return "a\x1b" + intro + body + fin + tail + "z"
+    return "".join(chr(r.choice(TEXT_ALPHABET)) for _ in range(r.randint(1, 28)))
+
+
+def text_filter_scenario(chars, texts):
     r_ = __import__("random").Random(1)
-    bt = {"alpha::t1": {}}
+    bt = {"alpha::t1": {}, "beta::t1": {}}
     tests = []
+
+    def add(b, name, text, kind):
+        plan = {"pass": ["pass"], "fail": ["fail", "fail"], "flaky": ["fail", "pass"]}[kind]
+        bt[b][name] = {"attempts": [mk_attempt(name, k, ak, r_, text, quiet=True) for k, ak in enumerate(plan, 1)]}
+        tests.append({"bin": b, "name": name, "kind": kind, "ss": True, "sf": True, "selected": True,
+                      "plan": plan, "payloads": ["text-filter"]})
     for i in range(0, len(chars), 16):
-        name = f"chars{i // 16:02d}"
-        text = "".join(f"[{c}:A{chr(c)}B]\n" for c in chars[i:i + 16])
-        bt["alpha::t1"][name] = {"attempts": [mk_attempt(name, 1, "pass", r_, text, quiet=True)]}
-        tests.append({"bin": "alpha::t1", "name": name, "kind": "pass", "ss": True, "sf": True, "selected": True,
-                      "plan": ["pass"], "payloads": ["char-filter"]})
-    return finish_scenario(dict(idx=9000, family="char-filter", retries=0, ss=True, sf=True, fail_fast=False,
+        add("alpha::t1", f"chars{i // 16:02d}", "".join(f"[{c}:A{chr(c)}B]\n" for c in chars[i:i + 16]), "pass")
+    for i, t in enumerate(texts):
+        add("beta::t1", f"text{i:03d}", t, ["pass", "pass", "fail", "flaky"][i % 4])
+    return finish_scenario(dict(idx=9000, family="text-filter", retries=1, ss=True, sf=True, fail_fast=False,
                                 tests=tests, bin_tests=bt, overrides=[], scripts=[], threads=4))
 
 
+TEXT_FAMILIES = ("text-filter", "regression-F13", "hostile")
+TEXT_MAX = 4000
+
+
+def scripted_stdout(sc, b, name, attempt):
+    """what attempt `attempt` of the test writes to stdout, as the Rust string nextest stores
+    (String::from_utf8_lossy; Python's 'replace' handler substitutes the same maximal subparts)"""
+    try:
+        spec = sc["bin_tests"][b][name]["attempts"][attempt - 1].get("stdout") or {}
+    except (KeyError, IndexError):
+        return None
+    data = bytes.fromhex(spec["hex"]) if "hex" in spec else spec.get("text", "").encode()
+    return data.decode("utf-8", "replace")
+
+
+def check_stored_text(chk, scs, reps):
+    """corr:stored-text -- the text of every stored system-out (testcase and rerun elements) of the
+    text-carrying scenario families is exactly Model/Junit.v's stored_text of the scripted stdout:
+    whole strings, escape sequences, C0/C1 controls, U+FFFE/U+FFFF and invalid UTF-8 included"""
+    items = []
+    for sc, rep in zip(scs, reps):
+        if rep is None or sc["family"] not in TEXT_FAMILIES:
+            continue
+        for s_ in rep["suites"]:
+            for c in s_["cases"]:
+                for el in [c] + c["reruns"]:
+                    if not el.get("stored") or el.get("out") is None or not el.get("marker"):
+                        continue
+                    src = scripted_stdout(sc, s_["name"], c["name"], el["marker"][1])
+                    if src is None or len(src) > TEXT_MAX:
+                        chk.count("stored_text_skipped_long" if src is not None else "stored_text_skipped_unknown")
+                        continue
+                    items.append((sc, s_["name"], c["name"], el["marker"][1], src, el["out"]))
+    if not items:
+        return
+    want = vlib.coq_eval("c17t", IMPORTS, ["stored_text " + coq_list([str(ord(ch)) for ch in src])
+                                           for (_, _, _, _, src, _) in items])
+    for (sc, b, name, k, src, got), w in zip(items, want):
+        chk.count("stored_text_cases")
+        if any(ord(ch) == ESC for ch in src):
+            chk.count("stored_text_with_esc")
+        if any(ord(ch) in (0xfffe, 0xffff) for ch in src):
+            chk.count("stored_text_with_nonchar")
+        if [ord(ch) for ch in got] != list(w):
+            chk.violation("broken-obligation", "corr:stored-text",
+                          dict(input=dict(test=[b, name], attempt=k, stdout_codepoints=[ord(ch) for ch in src]),
+                               impl=[ord(ch) for ch in got], model=list(w),
+                               clause="the stored system-out text is stored_text (strip_str, XmlString filter, xml_safe) "
+                                      "of the captured stdout"), no_input=True)
+            return
+
+
 def check_char_filter(chk, chars, rep):
-    """the XML text of a stored output keeps exactly the characters xmlstring_keeps keeps"""
-    keeps = vlib.coq_eval("c17c", IMPORTS, [f"(b2n (xmlstring_keeps {c}), b2n (xml_char {c}))" for c in chars])
-    text = "".join(c["out"] or "" for s in rep["suites"] for c in s["cases"])
+    """per character outside escape sequences: the stored text keeps exactly what nextest_keeps keeps,
+    and what is kept is an XML 1.0 Char"""
+    chars = [c for c in chars if c != ESC]   # reason: see char_filter_cases
+    keeps = vlib.coq_eval("c17c", IMPORTS, [f"(b2n (nextest_keeps {c}), b2n (xml_char {c}))" for c in chars])
+    text = "".join(c["out"] or "" for s in rep["suites"] for c in s["cases"] if c["name"].startswith("chars"))
     for c, (k, valid) in zip(chars, keeps):
         chk.count("char_filter_cases")
         m = re.search(r"\[%d:A(.*?)B\]" % c, text, re.S)
@@ -788,7 +915,7 @@ def check_char_filter(chk, chars, rep):
         if got != want:
             chk.violation("counterexample" if (k and not valid) else "broken-obligation", "corr:xmlstring-filter",
                           dict(input=dict(char=c), impl=repr(got), model=dict(keeps=bool(k), xml_char=bool(valid)),
-                               clause="stored output text keeps exactly the characters XmlString::new keeps"),
+                               clause="stored output text keeps exactly the characters the repaired pipeline keeps"),
                           no_input=not (k and not valid))
             return
         if k and not valid:
@@ -816,36 +943,31 @@ def evaluate(chk, scs, obs, tag="c17"):
         exprs.append(f"obs {n} {evs}")
     models = [decode_model(v) for v in vlib.coq_eval(tag, IMPORTS, exprs, PRELUDE)]
     problems = 0
+    reps = []
     for sc, o, m in zip(scs, obs, models):
         chk.count("e2e_runs")
         chk.count(f"family_{sc['family']}")
         rep = err = None
-        known = False
         if o["junit"] is not None:
             rep, err = parse_junit(o["junit"])
-            if rep is None and has_known_nonchar(sc):
-                rep2, err2 = parse_junit(strip_nonchars(o["junit"]))
-                if rep2 is not None:
-                    # exactly the listed failure: the only obstacle to well-formedness is U+FFFE / U+FFFF
-                    known = True
-                    chk.known_finding("F13 JUnit file is not well-formed XML when stored test output (or a panic "
-                                      "message taken from it) contains U+FFFE or U+FFFF: quick-junit's XmlString "
-                                      "keeps these two non-characters, which XML 1.0 forbids")
-                    rep, err = rep2, None
+        reps.append(rep)
         bad = oracle(sc, o, rep, err)
         diffs = compare(sc, o, m, rep)
         histogram(chk, sc, o, rep)
         if bad:
             problems += 1
             chk.violation("counterexample", "oracle:" + sc["family"],
-                          dict(input=slim(sc), clause=bad, model_differences=diffs, impl=impl_digest(o, rep),
-                               known_class=known))
+                          dict(input=slim(sc), clause=bad, model_differences=diffs, impl=impl_digest(o, rep)))
         elif diffs:
             problems += 1
             chk.violation("broken-obligation", "corr:junit-stream",
                           dict(input=slim(sc), differences=diffs, impl=impl_digest(o, rep),
                                note="model and implementation disagree; the property oracle accepted this run"),
                           no_input=True)
+    before = len(chk.violations) if hasattr(chk, "violations") else None
+    check_stored_text(chk, scs, reps)
+    if before is not None and len(chk.violations) > before:
+        problems += 1
     return problems
 
 
@@ -855,6 +977,7 @@ def impl_digest(o, rep):
     rf = [e["stats"] for e in o["tap"] if e.get("kind") == "RunFinished"]
     summ = [l for l in o["stderr"].splitlines() if "Summary [" in l]
     return dict(rc=o["rc"], summary=summ, run_finished=rf[-1] if rf else None, finished=fins,
+                signals_sent=o.get("sent"), wall=o.get("wall"),
                 junit=None if rep is None else [dict(name=s["name"], attrs=s["attrs"], cases=[
                     {k: v for k, v in c.items() if k != "out"} for c in s["cases"]]) for s in rep["suites"]],
                 stderr_tail=o["stderr"][-600:] if not rf else None)
@@ -879,6 +1002,12 @@ def histogram(chk, sc, o, rep):
             chk.count(f"cancelled_{e.get('reason')}")
         elif e.get("kind") == "TestSkipped":
             chk.count("skipped_tests")
+    if sc.get("signal_on") and sc["family"] == "mixed":
+        chk.count(f"signal_variant_{sc['signal_variant']}")
+        chk.count(f"signals_delivered_{len(o.get('sent', []))}")
+        fin = sum(1 for e in o["tap"] if e.get("kind") == "TestFinished")
+        sel = sum(1 for t in sc["tests"] if t.get("selected"))
+        chk.count("signal_runs_all_finished" if fin == sel else "signal_runs_cut_short")
     chk.count(f"store_flags_{int(sc['ss'])}{int(sc['sf'])}")
     chk.count(f"retries_{sc['retries']}")
     chk.count(f"exit_{o['rc']}")
@@ -920,11 +1049,15 @@ def run(tier, seed):
     for _ in range(n_mixed):
         scs.append(gen_scenario(r, idx, "mixed"))
         idx += 1
+    for _ in range(8 if thorough else 2):     # at least this many cancelled-by-signal runs whatever the seed
+        scs.append(gen_scenario(r, idx, "mixed", force_signal=True))
+        idx += 1
     for _ in range(n_hostile):
         scs.append(gen_scenario(r, idx, "hostile"))
         idx += 1
     chars = char_filter_cases(r, thorough)
-    cf = char_filter_scenario(chars)
+    texts = FIXED_TEXTS + [gen_text(r) for _ in range(160 if thorough else 24)]
+    cf = text_filter_scenario(chars, texts)
     scs.append(cf)
     obs = run_all(rig, scs)
     evaluate(chk, scs, obs)
@@ -943,21 +1076,25 @@ def run(tier, seed):
                                       scripts=[(s["id"], s["kind"]) for s in sc["scripts"]]),
                         summary=[l.strip() for l in o["stderr"].splitlines() if "Summary [" in l], rc=o["rc"]))
     chk.assumptions = [
-        "the model consumes the emitted event stream (hook H1 tap); the dispatcher that produces it is C01/C02/C10's model",
+        "the model consumes the emitted event stream (hook H1 tap); that the dispatcher attaches its running statistics to "
+        "the events is proved of the dispatcher model (C17_dispatcher_stream_attached) and checked on every tap (attached)",
         "finished <= selected is proved from 'a selected test finishes at most once' (C02), validated on every tap",
-        "XML serialisation (quick-junit / quick-xml escaping) is not modelled beyond XmlString's character filter; "
-        "well-formedness is observed with expat on every produced file",
+        "XML serialisation (quick-xml escaping, attribute quoting) is not modelled beyond the text pipeline xml_safe / "
+        "XmlString::new (stored_text); well-formedness of the file is observed with expat on every produced file",
+        "the stored-text theorem is over Rust strings (scalar values); lossy UTF-8 decoding of captured bytes is C16's",
         "setup-script store flags are read from the configuration when the tap does not report them",
     ]
     return chk.finish(
         gate, checker,
         ["Coq 8.16.1 kernel + vm_compute", "hand-written model Model/Junit.v tied by corr:junit-stream (event tap H1 "
-         "-> model -> JUnit file, RunFinished statistics, summary line, exit status) and corr:xmlstring-filter",
+         "-> model -> JUnit file, RunFinished statistics, summary line, exit status), corr:stored-text (whole stored "
+         "strings vs stored_text) and corr:xmlstring-filter (per character)",
          "lib/e2e.py, e2e/puppet.py (scripted test processes), Python's expat as the XML well-formedness judge",
          "generators / parsers / oracle in props/C17.py"],
         dict(evaluations=chk.counts.get("e2e_runs", 0), distinct_nontrivial=len(distinct),
              rule="one evaluation = one real nextest run (1-10 scripted tests over 1-4 binaries, retries 0-2, four "
-                  "store-flag combinations, fail-fast on/off, optional setup scripts, hostile outputs) whose event tap "
+                  "store-flag combinations, fail-fast on/off, optional setup scripts, hostile outputs, ~12% of the mixed runs "
+                  "cancelled by SIGINT/SIGTERM once or twice at a random point) whose event tap "
                   "is replayed through the Coq model; non-trivial = at least two finished tests and not all of them "
                   "plain single-attempt passes; distinct by (per-test attempt result kinds, store flags, retries, "
                   "fail-fast, script kinds)",
